@@ -39,7 +39,7 @@ Fixpoint tallocs (e:expr) : nat :=
   | EIf c bt bf => tallocs c + tallocsb bt + tallocsb bf
   | EIfOnly c bt => tallocs c + tallocsb bt
   | ELam _ b => tallocsb b
-  | ECall _ _ _ args | EExt _ args | ETuple args | ERecord _ _ args | ESlice args => tl args
+  | ECall _ _ _ args | EExt _ args | ETuple args | ERecord _ _ _ args | ESlice args => tl args
   | EPipeVar a _ _ => 2 + tallocs a
   | EPipeCall a _ args _ | EPipeExt a _ args _ => 2 + tallocs a + tl args
   | EField a _ => tallocs a
@@ -82,7 +82,7 @@ Inductive tinye : expr -> Prop :=
 | T_pipecall a f args u : tinye a -> Forall tinye args -> tinye (EPipeCall a f args u)
 | T_pipeext a fn args u : tinye a -> Forall tinye args -> tinye (EPipeExt a fn args u)
 | T_tuple es : List.length es = 2 -> Forall tinye es -> tinye (ETuple es)
-| T_record name fields es : Forall tinye es -> tinye (ERecord name fields es)
+| T_record name decl fields es : Forall tinye es -> tinye (ERecord name decl fields es)
 | T_field e f : field_target e -> tinye (EField e f)
 | T_ctor0 u c : tinye (ECtor u c None)
 | T_ctor1 u c a : tinye a -> tinye (ECtor u c (Some a))
@@ -113,7 +113,7 @@ Fixpoint tinye_b (n:nat) (e:expr) {struct n} : bool :=
   | ENot a => tinye_b n a
   | EIf c bt bf => tinye_b n c && tinyb_b n bt && tinyb_b n bf
   | EIfOnly c bt => tinye_b n c && tinyb_b n bt
-  | ECall _ _ _ args | EExt _ args | ERecord _ _ args => forallb (tinye_b n) args
+  | ECall _ _ _ args | EExt _ args | ERecord _ _ _ args => forallb (tinye_b n) args
   | EPipeVar a _ _ => tinye_b n a
   | EPipeCall a _ args _ | EPipeExt a _ args _ => tinye_b n a && forallb (tinye_b n) args
   | ETuple es => Nat.eqb (List.length es) 2 && forallb (tinye_b n) es
